@@ -74,6 +74,8 @@ def build(work, tier):
     csp = cb.spec('jidbare.spec')
     CFG = 'src/client/QXmppConfiguration.cpp'
     ctxt2 = cb.lower(Target(CFG, 'QXmppConfiguration::jidBare', 'jidBare', 'QXmppConfiguration_jidBare', this='QXmppConfiguration', parent=None), csp)
+    # a const member function may still write `mutable` members (a cache, say): the receiver is lowered without const, the frame stays empty
+    ctxt2 = ctxt2.replace('const QXmppConfiguration *self', 'QXmppConfiguration *self')
     crec, _ = ctx.emit_record(os.path.join(REPO, CFG), 'QXmppConfigurationPrivate', 'QXmppConfigurationPrivate', 'QXmppConfigurationPrivate', cprof, opaque_ok=True)
     c = ('#include "opaque.h"\n' + cprof.literal_ids.table() + cb.context() + '\n' + cb.subst(rd('cfgmodel.h')) + '\n' + crec +
          '\ntypedef struct QXmppConfiguration { QXmppConfigurationPrivate d; } QXmppConfiguration;\n' + '\n'.join(getattr(cb, 'lifted', [])) + '\n' + ctxt2 +
